@@ -376,6 +376,10 @@ def fold(node, env: Optional[dict] = None, _depth=0):
     if isinstance(node, ast.Call):
         if any(k.arg is None for k in node.keywords):
             raise NotLiteral("**kw")
+        if isinstance(node.func, ast.Name) and isinstance(env.get(node.func.id), FoldableFunction):
+            if any(isinstance(a, ast.Starred) for a in node.args):
+                raise NotLiteral("*args")
+            return env[node.func.id].call([f(a) for a in node.args], {k.arg: f(k.value) for k in node.keywords}, _depth + 1)
         if isinstance(node.func, ast.Name) and node.func.id in _SAFE_FUNCS and node.func.id not in env:
             fn = _SAFE_FUNCS[node.func.id]
             if fn is None and node.func.id == "map" and len(node.args) >= 2 and isinstance(node.args[0], ast.Name) \
@@ -414,6 +418,131 @@ def fold(node, env: Optional[dict] = None, _depth=0):
     raise NotLiteral(type(node).__name__)
 
 
+class _Return(Exception):
+    def __init__(self, value):
+        self.value = value
+
+
+class _Break(Exception):
+    pass
+
+
+class _Continue(Exception):
+    pass
+
+
+class FoldableFunction:
+    """A module-level function of the table-building kind (`def _get_relative_atomic_masses(): for ...: yield ...`), evaluated by the folder when a
+    module-level constant is defined by calling it on literal arguments: assignments, if / for / break / continue, yield, return over the
+    literal fragment of fold().  Anything else raises NotLiteral (the constant is then simply unknown)."""
+    BUDGET = 200000
+
+    def __init__(self, fn: ast.FunctionDef, module_env: dict):
+        self.fn = fn
+        self.module_env = module_env     # shared: sees what the module has bound so far
+
+    def call(self, args, kwargs, depth=0):
+        fn = self.fn
+        a = fn.args
+        if depth > 40 or a.vararg or a.kwarg or a.posonlyargs or a.kwonlyargs or fn.decorator_list:
+            raise NotLiteral("function %s" % fn.name)
+        names = [x.arg for x in a.args]
+        if len(args) > len(names):
+            raise NotLiteral("arity")
+        local = dict(zip(names, args))
+        for k, v in kwargs.items():
+            if k not in names or k in local:
+                raise NotLiteral("keyword")
+            local[k] = v
+        defaults = dict(zip(names[len(names) - len(a.defaults):], a.defaults))
+        for n in names:
+            if n not in local:
+                if n not in defaults:
+                    raise NotLiteral("missing argument")
+                local[n] = fold(defaults[n], self.module_env, depth + 1)
+        is_gen = any(isinstance(x, (ast.Yield, ast.YieldFrom)) for x in _walk_own(fn))
+        out = []
+        steps = [0]
+
+        def ev(e):
+            scope = dict(self.module_env)
+            scope.update(local)
+            v = fold(e, scope, depth + 1)
+            return list(v) if hasattr(v, "__next__") else v
+
+        def run(stmts):
+            for st in stmts:
+                steps[0] += 1
+                if steps[0] > self.BUDGET:
+                    raise NotLiteral("budget")
+                if isinstance(st, ast.Expr):
+                    if isinstance(st.value, ast.Constant):
+                        continue
+                    if isinstance(st.value, ast.Yield):
+                        out.append(ev(st.value.value) if st.value.value is not None else None)
+                        continue
+                    if isinstance(st.value, ast.YieldFrom):
+                        out.extend(ev(st.value.value))
+                        continue
+                    ev(st.value)
+                elif isinstance(st, ast.Assign):
+                    v = ev(st.value)
+                    for t in st.targets:
+                        _bind(t, v, local)
+                elif isinstance(st, ast.AugAssign) and isinstance(st.target, ast.Name) and type(st.op) in _BINOPS:
+                    try:
+                        local[st.target.id] = _BINOPS[type(st.op)](ev(st.target), ev(st.value))
+                    except NotLiteral:
+                        raise
+                    except Exception as e:
+                        raise NotLiteral(str(e))
+                elif isinstance(st, ast.If):
+                    run(st.body if ev(st.test) else st.orelse)
+                elif isinstance(st, ast.For):
+                    broke = False
+                    for item in ev(st.iter):
+                        _bind(st.target, item, local)
+                        try:
+                            run(st.body)
+                        except _Break:
+                            broke = True
+                            break
+                        except _Continue:
+                            continue
+                    if not broke:
+                        run(st.orelse)
+                elif isinstance(st, ast.Return):
+                    raise _Return(ev(st.value) if st.value is not None else None)
+                elif isinstance(st, ast.Break):
+                    raise _Break()
+                elif isinstance(st, ast.Continue):
+                    raise _Continue()
+                elif isinstance(st, ast.Pass):
+                    pass
+                else:
+                    raise NotLiteral("statement %s" % type(st).__name__)
+
+        ret = None
+        try:
+            run(fn.body)
+        except _Return as r:
+            ret = r.value
+        except (_Break, _Continue):
+            raise NotLiteral("stray break/continue")
+        return out if is_gen else ret
+
+
+def _walk_own(fn):
+    """nodes of fn's own body (nested functions and lambdas excluded)"""
+    stack = list(fn.body)
+    while stack:
+        n = stack.pop()
+        yield n
+        for c in ast.iter_child_nodes(n):
+            if not isinstance(c, (ast.FunctionDef, ast.AsyncFunctionDef, ast.Lambda, ast.ClassDef)):
+                stack.append(c)
+
+
 def _bind(target, value, env):
     if isinstance(target, ast.Name):
         env[target.id] = value
@@ -450,6 +579,8 @@ def fold_module_tables(tree: ast.Module, seed_env: Optional[dict] = None) -> dic
                     for item in fold(s.iter, env):
                         _bind(s.target, item, env)
                         run(s.body, env)
+                elif isinstance(s, ast.FunctionDef):
+                    env[s.name] = FoldableFunction(s, env)
             except NotLiteral:
                 # whatever this statement binds becomes unknown
                 for n in ast.walk(s):
